@@ -18,6 +18,14 @@ binding:   (a) CASE lines of the bounded configuration (every string up to lengt
            attributes, str, hash, ==, <, >, version_compare(v, fresh) == 0 and the same order
            against two fixed probe versions.  The outcome is the `key` component of the projected
            state, which TLC's EDGE lines / the trace module predict (= parsed components of full).
+           Size / threshold stress (notes/SIZE_STRESS.md) in all three legs: epochs of 1..25 digits
+           around 2**15, 2**16, 2**31, 2**32, 2**63, 2**64, 10**18, 10**24 with and without leading
+           zeros, digit / letter runs of boundary lengths (.. 31,32,33 .. 127,128,129, 255,256,257),
+           many hyphens / colons: stretched CASE concretizations (a digit or letter symbol becomes a
+           run of the same class; the reference layer only tests class membership, emptiness and
+           the positions of ':' and '-', so TLC's verdict and decomposition carry over run-wise;
+           a sample of them is re-validated by TLC on the long concrete text in the trace leg),
+           stretched symbol maps in the LTS replay, sized strings and values in the recorded traces.
 negative controls run in every check (spec level): DollarAnchor, UnicodeDigits, NoRollback, StaleKey
 must make TLC report AcceptExact / ImplRefines / KeyFresh violated; corrupted literal traces must be
 rejected.
@@ -31,7 +39,7 @@ from lts import LTS, skey, strip
 
 MANIFEST = dict(
     technique="TLA+ spec over code points (VersionString: reference Valid/Unspec/Decompose + regex/__setattr__ implementation layer) model-checked by TLC; bounded-exhaustive CASE lines and the complete object LTS replayed into Version/NativeVersion/BaseVersion; recorded constructions and assignment sequences validated by TLC (TraceVersionString)",
-    text="TLC enumerates every string up to length 4 (quick) / 5 (thorough) over 12 code points (digit, letter, . + ~ - :, space, LF, '_', non-ASCII letter, non-ASCII digit) and checks that the transcription of re_valid_version accepts exactly the valid strings outside the unspecified zone of D2, decomposes them like the reference and that Recompose(Decompose(s)) = s; it also explores the object LTS (12 start versions + 7 non-versions x 8 assignment values x 3 components + full_version + copy, closed up to a length bound) and checks that the transcription of __setattr__ (assign private, recompute, re-validate, roll back) refines 'recomposed valid version or ValueError with the object unchanged'. Every CASE line is replayed into the three real classes with several class-preserving concretizations (other digits/letters, tab, CR, U+0663, U+FF11, ...), every LTS edge and random walks are replayed with all four attributes compared after each call, and constructions/assignment sequences recorded from the real classes on random text up to 25 characters are validated by TLC on the concrete code points. The object model carries a derived comparison key (invariant KeyFresh: the state is a function of full_version alone); the binding observes it behaviourally after every accepted or rejected assignment (hash/==/< called before the assignment; afterwards v must equal, hash, print and order like a fresh object built from v.full_version, also against two fixed probe versions, and version_compare must give 0), so memoised or cached derived state that an assignment does not invalidate is detected.",
+    text="TLC enumerates every string up to length 4 (quick) / 5 (thorough) over 12 code points (digit, letter, . + ~ - :, space, LF, '_', non-ASCII letter, non-ASCII digit) and checks that the transcription of re_valid_version accepts exactly the valid strings outside the unspecified zone of D2, decomposes them like the reference and that Recompose(Decompose(s)) = s; it also explores the object LTS (12 start versions + 7 non-versions x 8 assignment values x 3 components + full_version + copy, closed up to a length bound) and checks that the transcription of __setattr__ (assign private, recompute, re-validate, roll back) refines 'recomposed valid version or ValueError with the object unchanged'. Every CASE line is replayed into the three real classes with several class-preserving concretizations (other digits/letters, tab, CR, U+0663, U+FF11, ...), every LTS edge and random walks are replayed with all four attributes compared after each call, and constructions/assignment sequences recorded from the real classes on random text up to 25 characters are validated by TLC on the concrete code points. The object model carries a derived comparison key (invariant KeyFresh: the state is a function of full_version alone); the binding observes it behaviourally after every accepted or rejected assignment (hash/==/< called before the assignment; afterwards v must equal, hash, print and order like a fresh object built from v.full_version, also against two fixed probe versions, and version_compare must give 0), so memoised or cached derived state that an assignment does not invalidate is detected. All three legs are size-stressed: epochs of 1..25 digits around 2**15/2**31/2**32/2**63/10**18 with and without leading zeros, digit and letter runs of boundary lengths up to 257, many hyphens/colons.",
     note="Small scope: strings <= 5 symbols exhaustively, longer ones sampled (traces); the LTS is closed only up to Len(full_version) <= 7/11 because 'a-b' as revision and '1:2' as epoch grow the version without bound. Unspecified (executed, never judged): D2 zone (over version characters: nothing / a colon after the last hyphen, nothing before it), None as upstream, '' as revision. Trusted: TLC, the projection (four attributes, str()), the class-preserving concretizer (cross-checked by feeding concretized cases to trace validation). Spec-level negative controls (DollarAnchor, UnicodeDigits, NoRollback, StaleKey) and corrupted control traces are run in every check. BaseVersion has no comparison: only attributes, str and hash are compared with the fresh object there.",
     design="5 (C14)")
 
@@ -54,6 +62,70 @@ NALETTER = [0xE9, 0xDF, 0x430, 0x4E2D, 0x3A9, 0xFF41, 0x17F, 0x212A, 0x131, 0x1D
 NADIGIT = [0x663, 0x967, 0xFF11, 0x1D7CF, 0xBEF, 0xB2, 0x2460, 0x6F0, 0x9E6]
 FOREIGN_POOL = {32: SPACEY, 10: LINEY, 95: PUNCTY, 233: NALETTER, 1635: NADIGIT}
 ALL_FOREIGN = sorted(set(SPACEY + LINEY + PUNCTY + NALETTER + NADIGIT))
+
+# size / threshold stress (notes/SIZE_STRESS.md): the abstract case does not change, its concretization
+# gets a size dimension.  The reference layer tests class membership per character, emptiness and the
+# positions of ':' and '-' only, so replacing a digit (letter) by a RUN of digits (letters) keeps
+# Valid / Unspec and maps the decomposition run-wise: expectations derived from TLC's abstract case are
+# length-independent by construction; stretched cases are additionally handed to the trace leg, where
+# TLC evaluates Valid / Decompose on the long concrete text itself.
+BOUNDARY_LENS = [1, 2, 7, 8, 9, 15, 16, 17, 31, 32, 33, 63, 64, 65, 71, 72, 73, 79, 80, 81, 127, 128, 129, 255, 256, 257]
+EPOCH_NUMS = [0, 9, 10, 99, 100, 2 ** 15 - 1, 2 ** 15, 2 ** 16 - 1, 2 ** 16, 2 ** 31 - 1, 2 ** 31, 2 ** 31, 2 ** 32 - 1,
+              2 ** 32, 2 ** 63 - 1, 2 ** 63, 2 ** 64, 10 ** 18, 10 ** 24 - 1]
+
+
+def big_epoch(rng, big=False):
+    """an epoch as a digit sequence (1..25 digits) around the usual numeric thresholds, with and
+    without leading zeros (numbers stay digit sequences: TLC integers are 32 bit)"""
+    n = max(0, rng.choice(EPOCH_NUMS[9:] if big else EPOCH_NUMS) + rng.choice([-1, 0, 0, 0, 1]))
+    d = str(n)
+    if rng.random() < 0.35 and len(d) < 25:
+        d = "0" * rng.randint(1, 25 - len(d)) + d
+    return [ord(c) for c in d]
+
+
+def sized_len(rng, cap=300):
+    r = rng.random()
+    pool = BOUNDARY_LENS[:11] if r < 0.55 else BOUNDARY_LENS[11:20] if r < 0.88 else BOUNDARY_LENS[20:]
+    return max(1, min(rng.choice(pool), cap))
+
+
+def run_of(rng, c, n):
+    """n members of the class of code point c (digit run / letter run)"""
+    pool = DIGITS if 48 <= c <= 57 else LETTERS
+    k = rng.randrange(4)
+    if k == 0:
+        return [rng.choice(pool)] * n
+    if k == 1 and pool is DIGITS:
+        return [49] + [48] * (n - 1)
+    if k == 2 and pool is DIGITS:
+        return [57] * n
+    return [rng.choice(pool) for _ in range(n)]
+
+
+def is_dl(c):
+    return 48 <= c <= 57 or 65 <= c <= 90 or 97 <= c <= 122
+
+
+def stretch(rng, case):
+    """size-stressed concretization of a CASE: one segment (>= 1 code points of the same class) per
+    model symbol; an epoch becomes an exact threshold number, digit / letter symbols become runs of
+    boundary lengths"""
+    s, d = case["s"], case["d"]
+    segs = [[pick(rng, x)] for x in s]
+    n_ep = len(d["epoch"]) if d["epoch"] != ABSENT else 0
+    if n_ep:
+        digits = big_epoch(rng, big=rng.random() < 0.7)
+        digits = [48] * (n_ep - len(digits)) + digits
+        for j in range(n_ep - 1):
+            segs[j] = [digits[j]]
+        segs[n_ep - 1] = digits[n_ep - 1:]
+    budget = 300
+    for i, x in enumerate(s):
+        if i >= n_ep and is_dl(x) and rng.random() < (0.35 if n_ep else 0.7) and budget > 1:
+            segs[i] = run_of(rng, x, sized_len(rng, budget))
+            budget -= len(segs[i])
+    return segs
 
 
 def pick(rng, c):
@@ -90,14 +162,25 @@ def show(cp):
 class SymMap:
     """one class-preserving substitution applied to a whole history (start text, values, states)"""
 
-    def __init__(self, rng=None, symbols=()):
+    def __init__(self, rng=None, symbols=(), sized=False):
         self.m = {}
         if rng is not None:
             for c in sorted(symbols):
                 self.m[c] = pick(rng, c)
+                if sized and c == 49:
+                    self.m[c] = big_epoch(rng, big=True)      # '1' is the epoch of the model's versions and values
+                elif sized and is_dl(c) and rng.random() < 0.4:
+                    self.m[c] = run_of(rng, c, sized_len(rng, 81))
 
     def cp(self, seq):
-        return [self.m.get(c, c) for c in seq]
+        out = []
+        for c in seq:
+            r = self.m.get(c, c)
+            if isinstance(r, list):
+                out.extend(r)
+            else:
+                out.append(r)
+        return out
 
     def obj(self, o):
         return {k: ([self.cp(x) for x in v] if k == "key" else self.cp(v)) for k, v in o.items()}
@@ -261,20 +344,24 @@ def recomposed(o):
 
 # ------------------------------------------------------------------ (a) CASE replay
 
-def expected_parts(case, t):
-    """components of the concretized text t, cut at the positions of TLC's decomposition
-    (Lossless, an invariant of the bounded configuration, makes the layout epoch : upstream - revision)"""
+def expected_parts(case, segs):
+    """components of the concretized text (one segment of code points per model symbol), cut at the
+    positions of TLC's decomposition (Lossless, an invariant of the bounded configuration, makes the
+    layout epoch : upstream - revision)"""
     d = case["d"]
+
+    def cut(a, b):
+        return [x for seg in segs[a:b] for x in seg]
     pos = 0
     ep = up = rev = ABSENT
     if d["epoch"] != ABSENT:
-        ep = t[:len(d["epoch"])]
+        ep = cut(0, len(d["epoch"]))
         pos = len(d["epoch"]) + 1
-    up = t[pos:pos + len(d["upstream"])]
+    up = cut(pos, pos + len(d["upstream"]))
     pos += len(d["upstream"])
     if d["revision"] != ABSENT:
-        rev = t[pos + 1:pos + 1 + len(d["revision"])]
-    return {"full": list(t), "epoch": ep, "upstream": up, "revision": rev, "key": [ep, up, rev]}
+        rev = cut(pos + 1, pos + 1 + len(d["revision"]))
+    return {"full": cut(0, len(segs)), "epoch": ep, "upstream": up, "revision": rev, "key": [ep, up, rev]}
 
 
 def check_case(clsname, t, valid, unspec, exp, stats=None):
@@ -377,8 +464,43 @@ VERCHARS = [ord(c) for c in "0123456789abcxyzABZ.+~"] + [ord(c) for c in "012345
 REVCHARS = [ord(c) for c in "0123456789abuntuBPO.+~"]
 
 
+def sized_part(rng, comp, with_colon=False):
+    """a version part of boundary length: long digit run, long letter run, mixed, many hyphens,
+    many colons (only with an epoch)"""
+    n = sized_len(rng)
+    chars = REVCHARS if comp == "revision" else VERCHARS
+    k = rng.randrange(6)
+    if k == 0:
+        return run_of(rng, 49, n)
+    if k == 1:
+        return run_of(rng, 97, n)
+    if k == 2 and comp != "revision":
+        return [(45 if i % 2 else rng.choice(chars)) for i in range(n | 1)]
+    if k == 3 and with_colon:
+        return [(58 if i % 3 == 1 else rng.choice(chars)) for i in range(n)] + [49]
+    if k == 4:
+        return run_of(rng, 49, max(1, n // 2)) + [46] + run_of(rng, 97, max(1, n - n // 2))
+    return [rng.choice(chars) for _ in range(n)]
+
+
+def gen_sized_string(rng):
+    s = []
+    has_ep = rng.random() < 0.65
+    if has_ep:
+        s += big_epoch(rng, big=rng.random() < 0.6) + [58]
+    s += sized_part(rng, "upstream", has_ep) if rng.random() < 0.6 else [rng.choice(VERCHARS) for _ in range(rng.randint(1, 6))]
+    if rng.random() < 0.5:
+        s += [45] + (sized_part(rng, "revision") if rng.random() < 0.5 else [rng.choice(REVCHARS) for _ in range(rng.randint(1, 6))])
+    if rng.random() < 0.25:
+        s = mutate(rng, s)
+    return s
+
+
 def gen_string(rng):
     k = rng.random()
+    if k < 0.12:
+        return gen_sized_string(rng)
+    k = (k - 0.12) / 0.88
     if k < 0.6:
         s = []
         has_ep = rng.random() < 0.4
@@ -442,13 +564,13 @@ def gen_value(rng, comp):
     if r < 0.17:
         return []
     if comp == "epoch":
-        base = [rng.choice(DIGITS) for _ in range(rng.randint(1, 3))]
+        base = big_epoch(rng, big=rng.random() < 0.6) if rng.random() < 0.35 else [rng.choice(DIGITS) for _ in range(rng.randint(1, 3))]
     elif comp == "revision":
-        base = [rng.choice(REVCHARS) for _ in range(rng.randint(1, 6))]
+        base = sized_part(rng, comp) if rng.random() < 0.1 else [rng.choice(REVCHARS) for _ in range(rng.randint(1, 6))]
     elif comp == "full":
         return gen_string(rng)
     else:
-        base = [rng.choice(VERCHARS) for _ in range(rng.randint(1, 8))]
+        base = sized_part(rng, comp, True) if rng.random() < 0.1 else [rng.choice(VERCHARS) for _ in range(rng.randint(1, 8))]
     if rng.random() < 0.45:
         base = mutate(rng, base)
         if rng.random() < 0.3:
@@ -616,7 +738,7 @@ def run(ctx):
     quick = ctx.tier == "quick"
     rng = ctx.rng
     ctx.assumptions += [
-        "bounded: every string up to length %d over 12 code points (1 a . + ~ - : space LF _ U+00E9 U+0663); longer strings are sampled (traces up to 25 characters)" % (4 if quick else 5),
+        "bounded: every string up to length %d over 12 code points (1 a . + ~ - : space LF _ U+00E9 U+0663); longer strings are sampled (traces up to 25 characters, size-stressed ones up to a few hundred; stretched CASE concretizations rely on the reference layer being invariant under replacing a digit/letter by a run of the same class and are cross-checked by TLC in the trace leg)" % (4 if quick else 5),
         "object LTS closed only up to Len(full_version) <= %d: 'a-b' as revision / '1:2' as epoch grow the version without bound (DESIGN.md called it closed)" % (7 if quick else 11),
         "unspecified, executed but never judged: D2 zone (version characters only: nothing or a colon after the last hyphen, nothing before it), None as upstream, '' as revision, any assignment recomposing into the zone",
         "concretization is class-preserving (the reference layer only tests class membership); concretized cases are cross-checked by trace validation on the concrete code points",
@@ -663,17 +785,25 @@ def run(ctx):
     unspec_stats = {}
     n_cases = 0
     cross = []                      # concretized cases handed to trace validation as well
+    cross_sized = []
+    n_sized = 0
     n_bad = 0                       # at most 2 reports per binding leg, so that each leg can speak
     for idx, c in enumerate(cases):
         if n_bad >= 2:
             break
         s = c["s"]
         nontrivial = c["valid"] or c["unspec"] or any(x in PUNCT or x in (10, 1635) for x in s)
-        for k in range(nconc + 1):
-            t = list(s) if k == 0 else [pick(rng, x) for x in s]
+        # the canonical form, nconc ordinary concretizations, and a size-stressed one for every case
+        # with an epoch and every 5th other case that has a digit or letter to stretch
+        sized = (c["d"]["epoch"] != ABSENT or idx % 5 == 0) and any(is_dl(x) for x in s)
+        for k in range(nconc + 1 + (1 if sized else 0)):
+            segs = [[x] for x in s] if k == 0 else stretch(rng, c) if k > nconc else [[pick(rng, x)] for x in s]
+            t = [x for seg in segs for x in seg]
             if k and t == s:
                 continue
-            exp = expected_parts(c, t) if (c["valid"] and not c["unspec"]) else None
+            if k > nconc:
+                n_sized += 1
+            exp = expected_parts(c, segs) if (c["valid"] and not c["unspec"]) else None
             names = CLASSES if k == 0 else (CLASSES[(idx + k) % 3],)
             bad = None
             for name in names:
@@ -688,7 +818,10 @@ def run(ctx):
                 ctx.violation({"kind": "case", "cls": bad[0], "s": t, "model_s": s, "valid": c["valid"],
                                "unspec": c["unspec"], "expected": exp}, bad[1])
                 break
-            if k and (c["valid"] or idx % 97 == 0) and len(cross) < (300 if quick else 1500) and rng.random() < 0.2:
+            if k > nconc:
+                if len(cross_sized) < (150 if quick else 1500) and (c["valid"] or idx % 7 == 0) and rng.random() < (0.1 if quick else 0.3):
+                    cross_sized.append(t)
+            elif k and (c["valid"] or idx % 97 == 0) and len(cross) < (300 if quick else 1500) and rng.random() < 0.2:
                 cross.append(t)
     ex_valid = [c for c in cases if c["valid"] and len(c["s"]) >= 4 and (c["d"]["epoch"] != ABSENT or c["d"]["revision"] != ABSENT)] \
         or [c for c in cases if c["valid"]]
@@ -704,6 +837,8 @@ def run(ctx):
     if ex_un:
         ctx.sample("CASE %s unspecified (D2): executed, not judged" % show(ex_un[len(ex_un) // 3]["s"]))
     ctx.extra["case_constructions"] = n_cases
+    ctx.extra["size_stressed_case_constructions"] = n_sized
+    cross += cross_sized
     ctx.extra["unspecified_zone_outcomes"] = {"construct": dict(unspec_stats)}
 
     # 3. (b) the object LTS: every edge (directly from its source state and along the shortest path
@@ -717,11 +852,15 @@ def run(ctx):
     n_replayed = 0
     nconc_e = 1 if quick else 3
     n_bad = 0
+    n_sized_paths = 0
     for idx, e in enumerate(g.edges):
         if n_bad >= 2:
             break
-        for k in range(nconc_e):
-            sm = SymMap() if k == 0 else SymMap(rng, symbols)
+        # one more, size-stressed concretization (threshold epochs, long runs) for every 3rd edge (quick)
+        extra = 1 if (not quick or idx % 3 == 0) and e["res"] != "unspec" else 0
+        for k in range(nconc_e + extra):
+            sm = SymMap() if k == 0 else SymMap(rng, symbols, sized=(k >= nconc_e))
+            n_sized_paths += k >= nconc_e
             clsname = CLASSES[(idx + k) % 3]
             aliases = [bool((idx + k) & 1), bool((idx + k) & 2)]
             if (idx + k) % 2 == 0 and e["_f"] in paths:
@@ -751,7 +890,8 @@ def run(ctx):
             break
         start_key = rng.choice(keys)
         path = g.walk(rng, start_key, wlen, weight=lambda x: 4 if x["res"] == "ok" and x["_f"] != x["_t"] else 1)
-        sm = SymMap() if w % 4 == 0 else SymMap(rng, symbols)
+        sm = SymMap() if w % 4 == 0 else SymMap(rng, symbols, sized=(w % 4 == 1))
+        n_sized_paths += w % 4 == 1
         clsname = CLASSES[w % 3]
         aliases = [rng.random() < 0.5 for _ in range(5)]
         msg = run_path(clsname, g.states[start_key], path, sm, aliases, assign_stats)
@@ -762,6 +902,7 @@ def run(ctx):
             ctx.violation({"kind": "path", "cls": clsname, "start": g.states[start_key],
                            "path": [strip(x) for x in path], "sym": sm.to_json(), "aliases": aliases}, msg)
     ctx.extra["behaviours_replayed"] = n_replayed
+    ctx.extra["size_stressed_behaviours"] = n_sized_paths
     ctx.extra["unspecified_zone_outcomes"]["lts"] = dict(assign_stats)
 
     # 4. (c) code -> spec: recorded constructions and assignment sequences validated by TLC
